@@ -345,6 +345,46 @@ func runC25(c *eng.Ctx) {
 		if len(reads) != 1 || len(waits) != 1 {
 			c.Undecided("ERR-body", eng.FuncName(fn)+" reads-to-the-end", fn.Pos(), "chunk read / final wait not found")
 		} else {
+			// the error tested after a read of the body is the error that read returned, never a value that was cleared
+			// in between (a body that ends early must not be committed as if it were complete)
+			nTest := 0
+			for _, b := range fn.Blocks {
+				iff, ok := b.Instrs[len(b.Instrs)-1].(*ssa.If)
+				if !ok {
+					continue
+				}
+				if _, loop := eng.InnermostLoop(reads[0].Block()); !loop[b] {
+					continue // the test of the recorded error after the loop joins the "nothing failed" initial value
+				}
+				eng.Walk(iff.Cond, 4, func(v ssa.Value) bool {
+					bo, isB := v.(*ssa.BinOp)
+					if !isB || bo.Op != token.NEQ || !eng.IsNilConst(bo.Y) || !eng.IsErrorType(bo.X.Type()) {
+						return true
+					}
+					vals := eng.ResolveFrom(bo.X, iff)
+					mine := false
+					for _, x := range vals {
+						if x == eng.ResultOf(reads[0], 1) {
+							mine = true
+						}
+					}
+					if !mine {
+						return true
+					}
+					nTest++
+					pure := true
+					for _, x := range vals {
+						if x != eng.ResultOf(reads[0], 1) {
+							pure = false
+						}
+					}
+					c.Ob("ERR-body", fmt.Sprintf("%s read-error-tested-as-returned#%d", eng.FuncName(fn), nTest), pure, iff.Pos(), "the error tested after a body read is the one the read returned (not cleared or replaced on some path)")
+					return true
+				})
+			}
+			if nTest == 0 {
+				c.Undecided("ERR-body", eng.FuncName(fn)+" read-error-tested-as-returned", fn.Pos(), "test of the body read error not found")
+			}
 			n := eng.ResultOf(reads[0], 0)
 			e := eng.ResultOf(reads[0], 1)
 			short := func(cond ssa.Value) (bool, bool) {
